@@ -64,6 +64,32 @@ func rederivedAtUnmarshal(e *edit) bool {
 	return e.Kind == "remove-member" && len(e.Path) == 1 && e.Path[0] == "$regime"
 }
 
+// classifier of known_findings.json: the edit removes a member whose value is the zero value of its kind
+// ("0", "", 0, false): for a member GOBL always writes, absence and the zero value are the same document
+// once read (named predicate over the edit and the base document).
+const clsZeroMember = "c08.zeroValuedMemberRemoved"
+
+func removesZeroValued(b *base, e *edit) bool {
+	if e.Kind != "remove-member" {
+		return false
+	}
+	x := atSafe(b.doc, e.Path)
+	if x == nil {
+		return false
+	}
+	switch x.K {
+	case c07.Str:
+		return x.S == "0" || x.S == ""
+	case c07.Int:
+		return x.I == 0
+	case c07.Flt:
+		return x.F == 0
+	case c07.Bool:
+		return !x.B
+	}
+	return false
+}
+
 type edit struct {
 	// alter-leaf | negate-leaf | swap-cr-lf | append-slash | append-fragment | append-space | toggle-case |
 	// remove-member | add-unknown-member | add-member | add-sibling-member |
@@ -1304,6 +1330,8 @@ func judgeOne(c *core.Ctx, b *base, ec *ecase, o outcome) {
 		cls := ""
 		if rederivedAtUnmarshal(e) {
 			cls = clsRederived
+		} else if removesZeroValued(b, e) {
+			cls = clsZeroMember
 		}
 		why := "the digest did not change although GOBL's view of the document did"
 		if o.gdocSame {
@@ -1320,6 +1348,8 @@ func judgeOne(c *core.Ctx, b *base, ec *ecase, o outcome) {
 			cls := ""
 			if rederivedAtUnmarshal(e) {
 				cls = clsRederived
+			} else if removesZeroValued(b, e) {
+				cls = clsZeroMember
 			}
 			c.Fail(cls, where+": validation fails ("+short(o.detail)+") but the digest is unchanged: the digest does not see this edit", ec)
 		} else {
